@@ -6,6 +6,7 @@ import GrVerif.Proofs.SilfLoad
 import GrVerif.Proofs.CodeLoop
 import GrVerif.Proofs.RulesLoad
 import GrVerif.Proofs.GlyphLoad
+import GrVerif.Proofs.FaceLoad
 import GrVerif.Props.C13
 import GrVerif.Props.C14
 /-!
@@ -190,6 +191,17 @@ theorem glyph_attributes_total (gloc glat : List Nat) (numGlyphsGraphics : Nat) 
   have := h c hc a ha
   rw [hs] at this
   exact sparse_get_in_bounds s this k
+
+/-- **`gr_make_face*` over the five Graphite tables** – the composition the property is about: `load_face` reads `Silf` (must be there),
+then the glyph cache (`Gloc`/`Glat`; glyph 0, or every glyph when preloading), then `Feat` and `Sill`, then the whole Silf table with the
+numbers the earlier stages produced (glyph count, attribute count, glyph boxes, feature count, and per sub-table its own class count and
+user-attribute count for the code loader).  For all bytes of the five tables, every glyph count of `maxp` and both loading modes: no
+access outside a table, no write outside a buffer the loader laid out, and the loader ends.  (The other tables – `head`, `hhea`, `hmtx`,
+`maxp`, `loca`, `glyf`, `cmap`, `name` – are parameters of this model, not part of it.) -/
+theorem face_loading_total (silf gloc glat feat sill : List Nat) (numGlyphsGraphics : Nat) (preload : Bool)
+    (hb : ∀ x ∈ gloc, x < 256) (hs : gloc.length < 18446744073709551616) :
+    ∃ r, loadFace silf gloc glat feat sill numGlyphsGraphics preload = .ok r :=
+  loadFace_total silf gloc glat feat sill numGlyphsGraphics preload hb hs
 
 /-- `sparse` on its own: for every sequence of (key, value) pairs the constructor stays inside its allocation, and every look-up on
 what it built is in bounds -/
